@@ -434,6 +434,41 @@ def run(ctx):
                    % culprit if culprit else "no condition on the instruction", f_.where(c_.bb))
     if any(f_.loc.f.endswith("compiler/instructions.rs") for f_ in prog.fns.values()):
         ctx.floor("C14.F12 location records appended", n12, 2)
+    # F13 (round 11, seed C14-11): a byte range that an error reports is a span the tokenizer recorded, never one the error
+    # code computes.  In `Error::range()` and everything of the crate it calls, each `Range` that is built takes both ends,
+    # through casts only, from the `start_offset` / `end_offset` of a stored span.  A range reconstructed from the line number
+    # (`source.lines()` drops `\r\n` and `\n` alike, so with CR LF sources every preceding line counts one byte short) points
+    # into the previous line or into the middle of a character.
+    rf_ = prog.fns.get("minijinja::error::Error::range")
+    if rf_ is not None:
+        fam_ = [rf_]
+        seen_ = {rf_.path}
+        for _ in range(3):
+            for g_ in list(fam_):
+                for h_ in prog.closures_of(g_.path):
+                    if h_.path not in seen_:
+                        seen_.add(h_.path)
+                        fam_.append(h_)
+                for c_ in g_.calls():
+                    h_ = prog.fns.get(c_.name)
+                    if h_ is not None and h_.crate == "minijinja" and h_.path not in seen_ and h_.loc.f.endswith(("error.rs", "debug.rs")):
+                        seen_.add(h_.path)
+                        fam_.append(h_)
+        n13 = 0
+        for g_ in fam_:
+            for bb_, i_, st_ in g_.all_stmts():
+                rv_ = st_.get("rv")
+                if not (rv_ and rv_["k"] == "agg" and (rv_.get("adt") or "").startswith("core::ops::range::Range")):
+                    continue
+                n13 += 1
+                bad_ = []
+                for op_ in rv_["ops"]:
+                    os_ = flow.origins(g_, op_) if "c" not in op_ else []
+                    if not os_ or not all(o.kind == "arg" and o.proj and o.proj[-1] in ("start_offset", "end_offset") for o in os_):
+                        bad_.append(sorted({o.kind if o.kind != "call" else "call " + o.call.name.split("::")[-1] for o in os_}) or ["constant"])
+                ctx.ob("C14.F13.reported-range-is-a-recorded-span", "%s|Range#%d" % (g_.path.split("::")[-1] if g_.kind != "closure" else g_.path.split("::", 2)[-1], n13), not bad_,
+                       "a byte range handed out by Error::range() is computed (%s) instead of being the stored span" % bad_, g_.where(bb_))
+        ctx.floor("C14.F13 ranges built for Error::range", n13, 1)
     # F11: the token stream hands a pending tokenizer error out *once* (`current()` replaces it by "end of input").
     # Whoever asks for the current token therefore returns that error; matching it away (`matches!(stream.current(),
     # Ok(Some(..)))` in a guard, `if let Ok(..) = ..`) loses the real error and the parser fails later with
